@@ -593,7 +593,9 @@ type vf6Case struct {
 	hasRdb    bool
 	rdbLeft   int64
 	rdbSize   int64
-	cmd       bool // real streams / snapshots (send=real schedules)
+	cmd       bool   // real streams / snapshots (send=real schedules)
+	logId     string // ghost: history the cached log bytes were taken from when that is not the label's ("" = the label's)
+	keepSrc   bool   // follow-up rounds keep the source's backlog and the stored position as they are
 	nonContig bool
 	extra     string // "<1|2> <resume> <done> <e>" when the real RedisOutput is used (2: its real Send too)
 	tokId     string // history the cached snapshot was taken from (ghost; the cache label may have changed since)
@@ -653,6 +655,13 @@ func vf6ParseCase(line string) (*vf6Case, error) {
 	c.logSize = i64(f[26])
 	c.src.heartbeat = f[27] == "1"
 	return c, nil
+}
+
+func (c *vf6Case) logHist() string {
+	if c.logId != "" {
+		return c.logId
+	}
+	return c.cRun
 }
 
 // wf: the hypotheses SourceWF and CacheWF of the theorems hold for this op
@@ -727,16 +736,17 @@ func (b *vf6Sink) commit(h *vf6H) {
 }
 
 type vf6H struct {
-	t      *testing.T
-	s      *vfutil.Session
-	sink   *vf6Sink
-	ln     *vf6Listener
-	tmp    string
-	nOps   int
-	nCase  int
-	inCfg  config.RedisConfig
-	slowMs int64
-	fault  string // fault injected into the bookkeeping calls of the next round ("" = none)
+	t         *testing.T
+	s         *vfutil.Session
+	sink      *vf6Sink
+	ln        *vf6Listener
+	tmp       string
+	nOps      int
+	nCase     int
+	inCfg     config.RedisConfig
+	slowMs    int64
+	fault     string // fault injected into the bookkeeping calls of the next round ("" = none)
+	faultPlan string // the fault of the first round of the case being run
 	// Waits are on explicit conditions (reader delivered, writer phase begun,
 	// everything stored, position stored). `patience` is only their hard limit:
 	// an attempt in which a wait hit the limit is discarded and the case is
@@ -1009,6 +1019,30 @@ func (h *vf6H) round(c *vf6Case, inner Channel, replay map[string]interface{}, r
 		} else {
 			h.s.Count("fault_not_reached_" + h.fault)
 		}
+		// the cache the failed run leaves behind (its bytes are still those the case put
+		// there, whatever label they carry now): the next connection is judged on it
+		arid := inner.RunId()
+		al, as := inner.GetRdb(arid)
+		cl, cr := inner.GetOffsetRange(arid)
+		res.after = *c
+		res.after.cRun = arid
+		res.after.logId = c.logHist()
+		res.after.hasRdb, res.after.rdbLeft, res.after.rdbSize = al >= 0 && as >= 0, al, as
+		res.after.hasAof = false
+		if cl >= 0 && cr >= 0 {
+			if res.after.hasRdb {
+				if cr > al {
+					res.after.hasAof, res.after.aofL, res.after.aofR = true, al, cr
+				}
+			} else {
+				res.after.hasAof, res.after.aofL, res.after.aofR = true, cl, cr
+			}
+		}
+		if !res.after.hasRdb && !res.after.hasAof {
+			res.after.logId, res.after.tokId = "", arid
+		}
+		res.after.fresh, res.after.extra = false, ""
+		h.fault = "" // one failing call per case
 		return res
 	}
 
@@ -1940,7 +1974,11 @@ func vf6NextCase(r *vfutil.Rand, prev *vf6Case, res *vf6Round) *vf6Case {
 	if s.backlog {
 		s.blen = s.master + 1 - s.first
 	}
-	switch r.Intn(6) {
+	pick := r.Intn(6)
+	if c.keepSrc {
+		pick = 5
+	}
+	switch pick {
 	case 0: // backlog trimmed
 		s.first = 1 + int64(r.Intn(int(s.master)+1))
 		s.blen = s.master + 1 - s.first
@@ -1961,10 +1999,11 @@ func vf6NextCase(r *vfutil.Rand, prev *vf6Case, res *vf6Round) *vf6Case {
 	default:
 		c.sp = prev.sp
 	}
-	if r.Chance(1, 8) {
+	j1, j2 := r.Chance(1, 8), r.Chance(1, 12)
+	if j1 && !c.keepSrc {
 		c.sp.Offset = vf6Clamp(c.sp.Offset + int64(r.Range(-30, 30)))
 	}
-	if r.Chance(1, 12) {
+	if j2 && !c.keepSrc {
 		c.sp = StartPoint{RunId: "?", Offset: -1}
 	}
 	return &c
@@ -2019,6 +2058,7 @@ func TestVerifC06(t *testing.T) {
 			c := *c0
 			rr := vfutil.NewRand(rseed)
 			h.begin(attempt)
+			h.fault = h.faultPlan
 			s := h.sink
 			h.nCase++
 			dir := filepath.Join(tmp, fmt.Sprintf("c%d", h.nCase))
@@ -2364,10 +2404,31 @@ func TestVerifC06(t *testing.T) {
 			continue
 		}
 		if i%16 == 3 {
-			// fault injection: one bookkeeping call of the round fails
-			h.fault = vfutil.Pick(r, []string{"reset1", "reset2", "reset1", "out_setrunid", "chan_del", "chan_set"})
-			runCase(c, "fault", 1)
-			h.fault = ""
+			// fault injection: one bookkeeping call of the first round fails; the next
+			// connection(s) are judged on whatever the failed run left behind
+			h.faultPlan = vfutil.Pick(r, []string{"reset1", "reset2", "reset1", "out_setrunid", "chan_del", "chan_set"})
+			if r.Bool() {
+				// a source with a brand-new id whose backlog covers the end of the old cache:
+				// FULLRESYNC, the failure hits after the channel was relabelled
+				c.backend = vfutil.Pick(r, []string{"d", "m"})
+				c.fresh, c.nonContig, c.keepSrc = false, false, true
+				old := vf6HexId(r)
+				c.cRun, c.tokId = old, old
+				c.hasRdb, c.hasAof = true, true
+				c.rdbLeft, c.rdbSize = int64(r.Range(0, 600)), int64(r.Range(1, 200))
+				c.aofL, c.aofR = c.rdbLeft, c.rdbLeft+int64(r.Range(1, 300))
+				c.src.id2, c.src.switchOff = vf6ZeroId, -2
+				c.src.master = c.aofR + int64(r.Range(0, 400))
+				c.src.backlog, c.src.first, c.src.blen = true, 1, c.src.master
+				c.sp = StartPoint{RunId: "?", Offset: -1}
+				if r.Chance(1, 3) {
+					c.sp = StartPoint{RunId: old, Offset: c.aofL + int64(r.Intn(int(c.aofR-c.aofL)+1))}
+				}
+				h.faultPlan = vfutil.Pick(r, []string{"reset1", "out_setrunid", "chan_del"})
+				s.Count("fault_template_newid_over_old_cache")
+			}
+			runCase(c, "fault", 2+r.Intn(2))
+			h.faultPlan, h.fault = "", ""
 			continue
 		}
 		rounds := 1
